@@ -164,7 +164,7 @@ func (fr *Frame) unspecified(st *State, key string, args []Val, sig *types.Signa
 		u.unspec[key+" (no contract; scalar arguments only, treated as having no effect on the heap)"] = true
 	} else {
 		u.unspec[key+" (no contract; havocs everything)"] = true
-		u.havocAll(st)
+		fr.havocAllKeepLocals(st)
 	}
 	return fr.resultVals(st, sig, "ext")
 }
@@ -244,14 +244,14 @@ func (fr *Frame) contractCall(st *State, fc *FuncContract, key string, args []Va
 	u.havocComp(st, "alloc")
 	for _, h := range fc.Havoc {
 		if h == "*" {
-			u.havocAll(st)
+			fr.havocAllKeepLocals(st)
 		} else {
 			u.havocComp(st, h)
 		}
 	}
 	for i, loc := range fc.Assigns {
 		if id, ok := loc.(EIdent); ok && id.Name == "*" {
-			u.havocAll(st)
+			fr.havocAllKeepLocals(st)
 			continue
 		}
 		if pc, ok := loc.(ECall); ok && pc.Fun == "pointee" && len(pc.Args) == 1 {
@@ -259,13 +259,18 @@ func (fr *Frame) contractCall(st *State, fc *FuncContract, key string, args []Va
 			v, err := env.EvalVal(pc.Args[0])
 			if err != nil || v.DynTyp == nil {
 				u.notes = append(u.notes, fmt.Sprintf("%s: pointee() of %s at %s has no static type: everything havocked", fr.oblFn, key, fr.pos(pos)))
-				u.havocAll(st)
+				fr.havocAllKeepLocals(st)
 				continue
 			}
 			if pt, ok := v.DynTyp.Underlying().(*types.Pointer); ok {
-				addr := "(val " + v.T + ")"
-				fr.frameCheck(st, addr, pos)
-				u.havocAt(st, addr, pt.Elem())
+				if v.Dyn != nil {
+					fr.frameCheck(st, v.Dyn.T, pos)
+					u.havocPtr(st, *v.Dyn, pt.Elem())
+				} else {
+					addr := "(val " + v.T + ")"
+					fr.frameCheck(st, addr, pos)
+					u.havocAt(st, addr, pt.Elem())
+				}
 			}
 			continue
 		}
@@ -580,9 +585,12 @@ func (fr *Frame) appendOp(st *State, c *ssa.CallCommon, args []Val, pos token.Po
 
 func (fr *Frame) writeSet(li *loopInfo) map[string]bool {
 	ws := map[string]bool{"alloc": true}
+	fr.u.curLoopBody = li.body
+	fr.u.localWrites = nil
 	for b := range li.body {
 		fr.u.blockWrites(b, ws, map[*ssa.Function]bool{fr.fn: true}, 0)
 	}
+	fr.u.curLoopBody = nil
 	return ws
 }
 
@@ -611,6 +619,18 @@ func (u *Unit) blockWrites(b *ssa.BasicBlock, ws map[string]bool, seen map[*ssa.
 	for _, ins := range b.Instrs {
 		switch x := ins.(type) {
 		case *ssa.Store:
+			if depth == 0 && u.loopLocal(x.Addr) {
+				// a store into a variable allocated inside the loop body: a fresh object in every iteration, no
+				// address that existed at the loop head is written
+				continue
+			}
+			if depth == 0 && u.curLoopBody != nil {
+				// a store into (a field of) a local variable allocated before the loop: exactly that location changes
+				if al, path, ok := localPath(x.Addr); ok && !u.curLoopBody[al.Block()] {
+					u.localWrites = append(u.localWrites, localWrite{al, path, x.Val.Type()})
+					continue
+				}
+			}
 			if isElemAddr(x.Addr) {
 				et := elemTypeOf(x.Addr)
 				if et != nil {
@@ -632,6 +652,9 @@ func (u *Unit) blockWrites(b *ssa.BasicBlock, ws map[string]bool, seen map[*ssa.
 			ws["MD_"+vs] = true
 			ws["MV_"+vs] = true
 		case *ssa.Alloc:
+			if depth == 0 && u.curLoopBody != nil && u.curLoopBody[x.Block()] {
+				continue // fresh object: zero-initialising it writes no existing address
+			}
 			et := x.Type().Underlying().(*types.Pointer).Elem()
 			if arr, ok := et.Underlying().(*types.Array); ok {
 				ws[u.elemComp(arr.Elem())] = true
@@ -928,4 +951,50 @@ func (u *Unit) callWrites(c *ssa.CallCommon, ws map[string]bool, seen map[*ssa.F
 // allHeap marks the whole heap as written (components not yet known included: the caller havocs everything).
 func (u *Unit) allHeap(ws map[string]bool) {
 	ws["*"] = true
+}
+
+// loopLocal reports whether an address is (a field of) a variable allocated inside the loop whose write set is
+// being computed.
+func (u *Unit) loopLocal(v ssa.Value) bool {
+	if u.curLoopBody == nil {
+		return false
+	}
+	for {
+		switch x := v.(type) {
+		case *ssa.FieldAddr:
+			v = x.X
+		case *ssa.Alloc:
+			if _, isArr := x.Type().Underlying().(*types.Pointer).Elem().Underlying().(*types.Array); isArr {
+				return false
+			}
+			return u.curLoopBody[x.Block()]
+		default:
+			return false
+		}
+	}
+}
+
+type localWrite struct {
+	alloc *ssa.Alloc
+	path  []int
+	typ   types.Type
+}
+
+// localPath decomposes an address into a local variable and a field path.
+func localPath(v ssa.Value) (*ssa.Alloc, []int, bool) {
+	var path []int
+	for {
+		switch x := v.(type) {
+		case *ssa.FieldAddr:
+			path = append([]int{x.Field}, path...)
+			v = x.X
+		case *ssa.Alloc:
+			if _, isArr := x.Type().Underlying().(*types.Pointer).Elem().Underlying().(*types.Array); isArr {
+				return nil, nil, false
+			}
+			return x, path, true
+		default:
+			return nil, nil, false
+		}
+	}
 }
